@@ -482,7 +482,7 @@ def subtype_grid(tier, seed):
 
 # ---- declared return types of built-in functions ---------------------------------------------------------------------------------
 SAMPLE_ARGS = {
-    'xs:string': ["'abc'", "''", "'a b'"], 'xs:string?': ["'abc'", "()"], 'xs:string*': ["('a', 'b')", "()"], 'xs:integer': ["2", "0", "-1"], 'xs:integer?': ["2", "()"],
+    'xs:string': ["'abc'", "''", "'a b'", "'http://a/b/'"], 'xs:string?': ["'http://x/y'", "'abc'", "()"], 'xs:string*': ["('a', 'b')", "()"], 'xs:integer': ["2", "0", "-1"], 'xs:integer?': ["2", "()"],
     'xs:integer*': ["(1, 2)", "()"], 'xs:double': ["1.5e0", "xs:double('NaN')"], 'xs:double?': ["1.5e0", "()"], 'xs:decimal': ["1.5"], 'xs:decimal?': ["1.5", "()"],
     'xs:numeric?': ["1", "1.5", "2e0", "()"], 'xs:numeric': ["1", "1.5"], 'xs:boolean': ["true()"], 'xs:boolean?': ["true()", "()"],
     'xs:anyAtomicType': ["1", "'a'"], 'xs:anyAtomicType?': ["1", "'a'", "()"], 'xs:anyAtomicType*': ["(1, 'a')", "()", "(3, 1, 2)"],
@@ -539,6 +539,10 @@ def return_type_grid(tier, seed):
                 ok = match_sequence_type(val, ret, parser, strict=False)
             except Exception as e:      # noqa
                 ok = None
+            if ok is not False and ret.rstrip('?*+') == 'xs:anyURI':
+                # the library's matcher promotes in both directions; an xs:string is not an xs:anyURI
+                from elementpath.datatypes import AnyURI as _AnyURI
+                ok = all(isinstance(x, _AnyURI) for x in (val if isinstance(val, list) else [val]))
             if ok is False:
                 bad(f'{prefix}:{local}#{arity} returns a value outside its declared return type {ret}', expr=expr, got=repr(val)[:80], declared=ret)
     fails = [{'key': k, 'items': it[:4], 'count': len(it), 'what': f'{k}: e.g. {it[0]["expr"]} = {it[0]["got"]}'} for k, it in fam.items()]
